@@ -18,7 +18,8 @@
 (*        pos indexes the tape.                                            *)
 (*   [mode |-> "gen", g |-> Seq(Nat)]                                      *)
 (*        model checking: the k-th draw since the last (re)seed with bound *)
-(*        b yields g[k] % b; pos counts draws since the last (re)seed.     *)
+(*        b yields g[k] % b (g used cyclically); pos counts draws since    *)
+(*        the last (re)seed.                                               *)
 (*                                                                         *)
 (* Eval returns [ok |-> TRUE, v |-> Word, pos] or [ok |-> FALSE, err, pos] *)
 (* with err one of                                                         *)
@@ -85,8 +86,8 @@ BinOp(op, a, b) ==
 \* one draw with bound `bound` (already known to be >= 2)
 Draw(rs, pos, bound) ==
   IF rs.mode = "gen"
-  THEN IF pos >= Len(rs.g) THEN Err("tape", pos)
-       ELSE Ok(WFromNat(rs.g[pos + 1] % bound[4]), pos + 1)   \* model bounds are small
+  THEN IF rs.g = <<>> THEN Err("tape", pos)
+       ELSE Ok(WFromNat(rs.g[(pos % Len(rs.g)) + 1] % bound[4]), pos + 1)   \* model bounds are small; g is used cyclically
   ELSE IF pos >= Len(rs.tape) THEN Err("tape", pos)
        ELSE LET t == rs.tape[pos + 1]
             IN  IF t.r THEN Err("tape", pos)
